@@ -31,10 +31,17 @@ func valueRenderers(c *rules.Ctx, ob *core.Obligation) []*ssa.Function {
 			}
 		}
 	}
-	for _, n := range []string{"setAccountMeta", "setTxMeta"} {
-		if f := c.Fn(ob, relInterp, n); f != nil {
+	// the metadata writers: the implementations of the statement builtins, whatever their names
+	t := c.BuildTables(ob)
+	n := 0
+	for name, f := range t.Impl {
+		if t.RCtx[name] == "statement" && f != nil {
 			out = append(out, f)
+			n++
 		}
+	}
+	if n == 0 {
+		ob.Unknown("anchor:statement-builtins", "-", "no implementation of a statement builtin found through the dispatch")
 	}
 	return out
 }
